@@ -218,15 +218,123 @@ def oracle(case) -> core.CaseResult:
     return res
 
 
-def shard(n, seed, known):
+
+# ---------------------------------------------------------------------------
+# release accounting of a warm-started run, end to end
+# ---------------------------------------------------------------------------
+
+
+@st.composite
+def warm_cases(draw):
+    from checks import c08
+
+    scn = draw(c08.cases(14))
+    scn["warm_point"] = draw(st.integers(0, 5))
+    return scn
+
+
+def warm_oracle(scn) -> core.CaseResult:
+    """After a warm start the window begins at the restart time; what was released up to and at that time is in
+    the restart file, every later row / tick is released at its own step, at its own position, in row order."""
+    import copy
+
+    from vlib import sim
+
+    res = core.CaseResult()
+    numrec = scn["output"]["numrec"]
+    nsteps = scn["time"]["nsteps"]
+    rel = scn["release"]
+    res.cls("continuous" if rel["continuous"] else "discrete")
+    with e2e.workdir() as d0, e2e.workdir() as d1:
+        r0, m0 = sim.run(d0, scn, record_output=False)
+        if not res.check(r0["status"] == "ok", "run_fails", f"base run: {r0['exc']}"):
+            return res
+        points = []
+        for k, wname in enumerate(e2e.list_outputs(d0)):
+            fk = e2e.read_sparse(d0 / wname)
+            if len(fk["times"]) < numrec:
+                continue
+            done = int((fk["times"][-1] - m0["start"]) / np.timedelta64(sim.DT, "s"))
+            if done < nsteps:
+                points.append((k, wname, done, fk))
+        if not points:
+            res.cls("no_restart_point")
+            return res
+        k, wname, done, fk = points[scn["warm_point"] % len(points)]
+        npid0 = int(fk["gattrs"].get("particles_released", -1))
+        path, m1 = sim.build(d1, copy.deepcopy(scn), out_name=f"out_{k + 1:03d}.nc", record_output=False,
+                             ibm_offset=done)
+        conf = m1["conf"]
+        del conf["time"]["start"]
+        wvars = ["tag", "age"] + (["temp"] if scn["forcing"]["temp"] else []) + list(scn["pvars"])
+        conf["warm_start"] = {"filename": str(d0 / wname), "variables": wvars}
+        conf["release"]["module"] = str(sim.PLUG / "rec_all.py")  # snapshots the state right after every release
+        e2e.write_yaml(conf, path)
+        r1 = e2e.run_main(path)
+        if not res.check(r1["status"] == "ok", "run_fails", f"warm start from {wname}: {r1['exc']}\n{(r1['tb'] or '')[-500:]}"):
+            return res
+        log = [e for e in r1["log"] if e[0] == "call" and e[1] == "release" and e[2] == "update"]
+    placed = m1["placed"]
+    fsteps = sorted(set(p["step"] for p in placed))
+
+    def expected(a):
+        if a >= nsteps:
+            return []
+        if not rel["continuous"]:
+            rows = [p for p in placed if p["step"] == a]
+        else:
+            if (a - fsteps[0]) % rel["freq"] != 0 or a < fsteps[0]:
+                return []
+            latest = max(t for t in fsteps if t <= a)
+            rows = [p for p in placed if p["step"] == latest]
+        return [p for p in rows for _ in range(p["mult"])]
+
+    seen = set(int(p) for p in fk["records"][-1]["pid"])
+    next_pid = npid0 if npid0 >= 0 else (max(seen) + 1 if seen else 0)
+    late = 0
+    for e in log:
+        nw, snap = e[3], e[6]
+        a = done + nw
+        new = [(int(p), float(x), float(y)) for p, x, y in zip(snap["pid"], snap["X"], snap["Y"])
+               if int(p) not in seen and int(p) >= next_pid]
+        want = expected(a) if nw >= 1 else []   # step 0 of the warm run: everything is in the restart file
+        if not res.check(len(new) == len(want), "warm_release_count",
+                         f"restart from {wname} (step {done}): at step {a} {len(new)} new particles, scheduled "
+                         f"{len(want)} (rows {[(w['tag'], w['mult']) for w in want[:5]]})"):
+            return res
+        for (p, x, y), w in zip(new, want):
+            ok = abs(x - w["x"]) <= 1e-12 * max(1, abs(w["x"])) and abs(y - w["y"]) <= 1e-12 * max(1, abs(w["y"]))
+            if not res.check(ok, "warm_release_position",
+                             f"restart from {wname} (step {done}): pid {p} released at step {a} at ({x}, {y}), "
+                             f"scheduled row tag {w['tag']} at ({w['x']}, {w['y']})"):
+                return res
+        res.check([p for p, _, _ in new] == list(range(next_pid, next_pid + len(new))), "warm_release_pids",
+                  f"step {a}: new pids {[p for p, _, _ in new]}, expected to continue at {next_pid}")
+        next_pid += len(new)
+        seen |= {p for p, _, _ in new}
+        if new and nw >= 1:
+            late += 1
+    res.nontrivial = late >= 1
+    at_restart = bool(expected(done)) if done < nsteps else False
+    if at_restart:
+        res.cls("rows_or_tick_at_the_restart_time")
+    return res
+
+
+def shard(part, n, seed, known):
     stt = core.Stats()
-    core.drive("table", tables(), oracle, n, seed, stt, known)
+    if part == "warm":
+        core.drive("warm", warm_cases(), warm_oracle, n, seed, stt, known)
+    else:
+        core.drive("table", tables(), oracle, n, seed, stt, known)
     return stt
 
 
 def run(ctx):
-    jobs = [(k, core.subseed(ctx.seed, "t", i), ctx.known_sigs)
-            for i, k in enumerate(core.split(ctx.n(8000, 120000), 16))]
+    jobs = [("table", k, core.subseed(ctx.seed, "t", i), ctx.known_sigs)
+            for i, k in enumerate(core.split(ctx.n(8000, 120000), 12))]
+    jobs += [("warm", k, core.subseed(ctx.seed, "w", i), ctx.known_sigs)
+             for i, k in enumerate(core.split(ctx.n(240, 4000), 4))]
     stats = core.Stats()
     for s in core.pmap(shard, jobs):
         stats.merge(s)
@@ -235,7 +343,10 @@ def run(ctx):
               "after the window, extra int/float/time columns as instance or particle variables, header or names, "
               "column permutations, timestamp spellings, X/Y or lon/lat, discrete or continuous with frequency m*dt, "
               "forward / reversed); the State is diffed after every timer.update(); release.update(); "
-              "non-trivial = >= 2 release times (or ticks) inside the window and a row outside it or mult != 1"),
+              "non-trivial = >= 2 release times (or ticks) inside the window and a row outside it or mult != 1; "
+              "part 'warm': end-to-end run warm-started from a drawn file boundary of a split run with a recording "
+              "release plug-in: nothing is released at the restart time (it is in the restart file), every later "
+              "row / tick enters at its own step and position with the next pids"),
         assumptions=["times on the model grid, table sorted in simulation order, continuous file times on the tick grid",
                      "lon/lat through a plug-in grid with an affine ll2xy (real Grid: C16)",
                      "time-typed extra columns are compared by the instant they denote, not by dtype"],
@@ -243,4 +354,4 @@ def run(ctx):
 
 
 def replay(part, case):
-    return oracle(case)
+    return warm_oracle(case) if part == "warm" else oracle(case)
